@@ -38,7 +38,7 @@ func installYield(s *kernel.Sim, y *yctl) {
 		}
 		y.parks++
 		s.Probe("yield-parks")
-		s.Yield("y:" + cur)
+		s.Yield("y:" + cur + "@" + site) // (site in the key: canonical order among goroutines cedar started itself)
 	}
 	verifhook.LockWaitFunc = func(site string, probe func() bool) {
 		if s.Ended() {
